@@ -275,7 +275,23 @@ pub fn run(o: &Opts) -> Report {
         let mut names: Vec<String> = pest::unicode::unicode_property_names().map(|s| s.to_string()).collect();
         names.extend(refpeg::grammar::BUILTIN_NAMES.iter().map(|s| s.to_string()));
         names.sort();
-        let items: Vec<(String, Vec<String>)> = names.iter().map(|n| (format!("r = {{ {} ~ {}? }}", n, n), vec![])).collect();
+        let mut items: Vec<(String, Vec<String>)> = names.iter().map(|n| (format!("r = {{ {} ~ {}? }}", n, n), vec![])).collect();
+        // a built-in referenced only from inside a predicate, translated from the unoptimized AST as well
+        // (which rules are imported into the generated module is decided by a walk over the expression)
+        let few_props = ["LETTER", "MATH", "EMOJI", "HAN", "WHITE_SPACE", "DECIMAL_NUMBER", "XID_START", "LOWERCASE_LETTER"];
+        for n in refpeg::grammar::BUILTIN_NAMES.iter().copied().chain(few_props) {
+            if n == "INHERITED" {
+                continue;
+            }
+            for body in [format!("(!{} ~ \"a\")* ~ \"b\"?", n), format!("\"a\" ~ &{}", n), format!("(\"a\" | !{} ~ \"b\")+", n)] {
+                let src = format!("r = {{ {} }}", body);
+                if pest_meta::parse_and_optimize(&src).is_err() {
+                    continue;
+                }
+                items.push((src.clone(), vec!["pest_optimizer = false".to_string()]));
+                items.push((src, vec![]));
+            }
+        }
         crate::det::write_probe_crates(dir, "probe_builtin", &items, 100000);
         rep.cells.insert("builtins_compile_probed".into(), items.len() as u64);
     }
